@@ -159,6 +159,20 @@ def run_case(desc):
             out.fail("one-entry-per-atom", "%s has %d entries for %d atoms" % (nm, len(arr), len(system)), key="one-entry-per-atom:" + nm)
     if out.failures:
         return out
+    # the returned System objects report letters / equivalence classes themselves (System.get_wyckoff_letters / get_equivalent_atoms):
+    # where they do, it must be the analyser's answer for that system
+    for nm, system, l, e in (("primitive", prim, lp, ep), ("conventional", conv, lc, ec)):
+        wl = getattr(system, "get_wyckoff_letters", lambda: None)()
+        if wl is not None:
+            out.cls("system-object-letters")
+            if [str(x) for x in np.asarray(wl).tolist()] != [str(x) for x in l.tolist()]:
+                out.fail("system-object-letters", "%s system object reports letters %s, the analyser reports %s for it" % (nm, list(wl)[:12], l.tolist()[:12]), key="system-object-letters:" + nm)
+        we = getattr(system, "get_equivalent_atoms", lambda: None)()
+        if we is not None and len(we) == len(e):
+            we = np.asarray(we)
+            same = all(len(set(e[we == k].tolist())) == 1 for k in set(we.tolist())) and all(len(set(we[e == k].tolist())) == 1 for k in set(e.tolist()))
+            if not same:
+                out.fail("system-object-equivalent-atoms", "%s system object partitions its atoms differently from the analyser's equivalent atoms" % nm, key="system-object-equivalent:" + nm)
     # equivalent atoms share element and letter
     for nm, system, l, e in (("original", at, lo, eo), ("primitive", prim, lp, ep), ("conventional", conv, lc, ec)):
         nums = system.get_atomic_numbers()
